@@ -7,7 +7,7 @@ Local Open Scope string_scope.
 (** the methods of [dd.bdd.BDD] the model wraps with [try_to_reorder];
     [reduction] is a Python-only utility that is not modelled *)
 Definition model_decorated : list string :=
-  ["_cofactor_vars"; "_quantify_vars"; "add_expr"; "compose"; "cube"; "ite"; "reduction"; "rename"; "var"].
+  ["_cofactor_vars"; "_cube_of_literals"; "_quantify_vars"; "add_expr"; "compose"; "ite"; "reduction"; "rename"; "var"].
 
 Lemma decorated_table : py_decorated = model_decorated.
 Proof. reflexivity. Qed.
